@@ -455,3 +455,68 @@ package cert
 //@   ensures @C17 err == nil && bound(P8) && bound(P8KEY) && oidv(P8.Algo.Algorithm) == oid("1.2.840.113549.1.1.1") ==> typeis(key, "*crypto/rsa.PrivateKey") && pkcs1priv(unboxRef(key)) == P8KEY
 //@   ensures @C17,C14 err == nil && bound(P8) && oidv(P8.Algo.Algorithm) != oid("1.2.840.113549.1.1.1") ==> bound(ECKEY) && bound(ECERR)
 //@   ensures @C17,C14 err == nil && bound(P8) && bound(ECKEY) && bound(ECERR) && oidv(P8.Algo.Algorithm) != oid("1.2.840.113549.1.1.1") ==> ECERR == nil && typeis(key, "*crypto/ecdsa.PrivateKey") && unboxRef(key) == ECKEY
+
+// ---- declarations that encoding/asn1 encodes by reflection (C01, C02, C07, C14, C17): field order and tag options
+// as the ASN.1 modules give them (RFC 5280 4.1 and 4.2.1.4, RFC 2986 4, RFC 5208 5, RFC 5915 3). A SEQUENCE OF with
+// SIZE (1..MAX) that is OPTIONAL has to be left out when empty, which is "omitempty".
+//@ type Certificate @C01,C02
+//@   order TBSCertificate SignatureAlgorithm SignatureValue
+//@   asn1 TBSCertificate ""
+//@   asn1 SignatureAlgorithm ""
+//@   asn1 SignatureValue ""
+//@ type TbsCertificate @C01,C02,C03,C19
+//@   order Version SerialNumber SignatureAlgorithm Issuer Validity Subject PublicKey IssuerUniqueId SubjectUniqueId Extensions
+//@   asn1 Version "optional,explicit,default:0,tag:0"
+//@   asn1 SerialNumber ""
+//@   asn1 SignatureAlgorithm ""
+//@   asn1 Issuer ""
+//@   asn1 Validity ""
+//@   asn1 Subject ""
+//@   asn1 PublicKey ""
+//@   asn1 IssuerUniqueId "optional,tag:1"
+//@   asn1 SubjectUniqueId "optional,tag:2"
+//@   asn1 Extensions "optional,omitempty,explicit,tag:3"
+//@ type validity @C04
+//@   order NotBefore NotAfter
+//@   asn1 NotBefore ""
+//@   asn1 NotAfter ""
+//@ type PublicKeyInfo @C05,C14
+//@   order Algorithm PublicKey
+//@   asn1 Algorithm ""
+//@   asn1 PublicKey ""
+//@ type TbsCertificateRequest @C14,C17
+//@   order Version Subject PublicKey RawAttributes
+//@   asn1 RawAttributes "tag:0"
+//@ type CertificateRequest @C14,C17
+//@   order TbsCsr SignatureAlgorithm SignatureValue
+//@ type pkcs8 @C17,C14
+//@   order Version Algo PrivateKey
+//@   asn1 Version ""
+//@   asn1 Algo ""
+//@   asn1 PrivateKey ""
+//@ type ecPrivateKey @C17,C14
+//@   order Version PrivateKey NamedCurveOID PublicKey
+//@   asn1 Version ""
+//@   asn1 PrivateKey ""
+//@   asn1 NamedCurveOID "optional,explicit,tag:0"
+//@   asn1 PublicKey "optional,explicit,tag:1"
+//@ type PolicyInfo @C07
+//@   order ObjectIdentifier Qualifiers
+//@   asn1 ObjectIdentifier ""
+//@   asn1 Qualifiers "optional,omitempty"
+//@ type PolicyQualifier @C07
+//@   order QualifierId Cps UserNotice
+//@   asn1 QualifierId ""
+//@   asn1 Cps "optional,ia5"
+//@   asn1 UserNotice "optional"
+//@ type UserNotice @C07
+//@   order NoticeRef ExplicitText
+//@   asn1 NoticeRef "optional"
+//@   asn1 ExplicitText "optional,utf8"
+//@ type NoticeReference @C07
+//@   order Organization NoticeNumbers
+//@   asn1 Organization "utf8"
+//@   asn1 NoticeNumbers ""
+//@ type AuthorityKeyIdentifier @C07,C01
+//@   order KeyIdentifier
+//@   asn1 KeyIdentifier "optional,tag:0"
